@@ -326,3 +326,76 @@ func c08UniverseInterfaces(c *Ctx, p *Prog, tp *packages.Package) {
 	}
 	c.Min(rule, "interface types defined by the universes", n, 2)
 }
+
+// C08 rule constant-kind-assert-guarded (added after probing: `const c: int = 1 << c` and `1 >> "` in a partial tree made
+// the type checker assert `yval.Kind() == constant.Int` on a constant whose value is Unknown — the value every constant
+// has after an error or a cycle). An `assert(V.Kind() == constant.K)` in the type checker is preceded, in its statement
+// list, by a test of V.Kind() against constant.Unknown that leaves.
+func c08ConstantKindAsserts(c *Ctx, p *Prog, tp *packages.Package) {
+	const rule = "constant-kind-assert-guarded"
+	if tp == nil {
+		return
+	}
+	n := 0
+	for _, name := range sortedDeclNames(tp) {
+		fd := AllFuncDecls(tp)[name]
+		if fd.Body == nil {
+			continue
+		}
+		var lists [][]ast.Stmt
+		ast.Inspect(fd.Body, func(m ast.Node) bool {
+			switch x := m.(type) {
+			case *ast.BlockStmt:
+				lists = append(lists, x.List)
+			case *ast.CaseClause:
+				lists = append(lists, x.Body)
+			}
+			return true
+		})
+		for _, list := range lists {
+			for i, st := range list {
+				es, ok := st.(*ast.ExprStmt)
+				if !ok {
+					continue
+				}
+				call, ok := es.X.(*ast.CallExpr)
+				if !ok || len(call.Args) != 1 {
+					continue
+				}
+				if id, ok := call.Fun.(*ast.Ident); !ok || id.Name != "assert" {
+					continue
+				}
+				be, ok := ast.Unparen(call.Args[0]).(*ast.BinaryExpr)
+				if !ok || be.Op.String() != "==" {
+					continue
+				}
+				l := strings.ReplaceAll(types.ExprString(be.X), " ", "")
+				r := types.ExprString(be.Y)
+				if !strings.HasSuffix(l, ".Kind()") || !strings.HasPrefix(r, "constant.") || r == "constant.Unknown" {
+					continue
+				}
+				v := strings.TrimSuffix(l, ".Kind()")
+				n++
+				guarded := false
+				for _, prev := range list[:i] {
+					ifs, ok := prev.(*ast.IfStmt)
+					if !ok {
+						continue
+					}
+					cond := strings.ReplaceAll(types.ExprString(ifs.Cond), " ", "")
+					if !strings.Contains(cond, v+".Kind()==constant.Unknown") {
+						continue
+					}
+					for _, b := range ifs.Body.List {
+						if _, ok := b.(*ast.ReturnStmt); ok {
+							guarded = true
+						}
+					}
+				}
+				c.Check(guarded, rule, name+": "+types.ExprString(call), p.Pos(call.Pos()), "the Unknown value is handled before the assertion",
+					"the type checker asserts "+types.ExprString(call.Args[0])+" without having excluded constant.Unknown: after an error or an initialisation cycle a constant operand carries the Unknown value (`const c: int = 1 << c`), and the compiler panics instead of reporting the error it has already found")
+			}
+		}
+	}
+	c.Min(rule, "kind assertions on constant values in the type checker", n, 1)
+}
